@@ -1,7 +1,7 @@
 (* C11 -- A failed or concurrent cache fill never leaves or serves a partial file.
    Fault part: proved on the model of Cache/Cache.v for every fault position (any source read, mkdir,
-   create, any write with any number of bytes of its chunk stored, close), every chunk size and both
-   store kinds.  Concurrency part (at most one copy in progress; every successful open complete):
+   create, any write with any number of bytes of its chunk stored, close, and a source that cannot be opened at
+   all during a later call), every chunk size and both store kinds.  Concurrency part (at most one copy in progress; every successful open complete):
    the per-path mutex makes the opens of one name sequential, so the sequential theorems apply to
    whatever order the lock admits them in; that the real lock does serialise them is exercised by the
    harness (simultaneous copies counted), not proved (* OPEN: C11_mutex_serialises_fills *). *)
@@ -29,8 +29,8 @@ Theorem C11_interrupted_fill_reports_an_error : forall src retain c can_remove s
   snd (copen src retain c can_remove ft part st n) = OErr.
 Proof.
   intros src retain c can_remove st n data w nr ft part S R L I CL F.
-  unfold copen. rewrite I, S, L, R. cbn [negb].
-  destruct ft; try contradiction; rewrite CL; cbn [andb]; destruct can_remove; reflexivity.
+  unfold copen. rewrite I, S, L, R. cbn [negb andb].
+  destruct ft; try contradiction; try reflexivity; rewrite CL; cbn [andb]; destruct can_remove; reflexivity.
 Qed.
 Print Assumptions C11_interrupted_fill_reports_an_error.
 
@@ -39,6 +39,16 @@ Theorem C11_failed_fill_leaves_nothing_servable : forall src retain c can_remove
   0 < c -> cinv src st -> cinv src (fst (copen src retain c can_remove ft part st n)).
 Proof. exact copen_inv. Qed.
 Print Assumptions C11_failed_fill_leaves_nothing_servable.
+
+(* The two-failure history (a fill interrupted on a store that cannot remove the partial copy, then a re-open
+   while the source cannot be opened, then clean re-opens): the mark survives the failed re-open. *)
+Example C11_two_failures_witness :
+  let src := [(S "f", SFile [1;2;3;4;5;6;7]%N)] in
+  let '(st, rs) := cruns src (fun _ => true) 3 false cinit
+                     [(S "f", FWrite 1, 2); (S "f", FSrcOpen, 0); (S "f", FNone, 0); (S "f", FNone, 0)] in
+  rs = [OErr; OErr; Served [1;2;3;4;5;6;7]%N; Served [1;2;3;4;5;6;7]%N].
+Proof. vm_compute. auto. Qed.
+Print Assumptions C11_two_failures_witness.
 
 (* Non-vacuity: a write failing mid-chunk on a store that cannot remove, then a clean re-open. *)
 Example C11_nonvacuous :
